@@ -17,21 +17,27 @@ AbstractDiscreteDistribution::AbstractDiscreteDistribution(size_t nbClasses, con
   AbstractParameterAliasable(prefix),
   numberOfCategories_(nbClasses),
   distribution_(),
-  bounds_(nbClasses - 1),
+  bounds_(nbClasses > 0 ? nbClasses - 1 : 0),
   intMinMax_(new IntervalConstraint(-NumConstants::VERY_BIG(), NumConstants::VERY_BIG(), true, true)),
   median_(false),
   discretizationScheme_(discretization)
-{}
+{
+  if (nbClasses == 0)
+    throw Exception("AbstractDiscreteDistribution. The number of classes must be at least 1.");
+}
 
 AbstractDiscreteDistribution::AbstractDiscreteDistribution(size_t nbClasses, double delta, const std::string& prefix, short discretization) :
   AbstractParameterAliasable(prefix),
   numberOfCategories_(nbClasses),
   distribution_(Order(delta)),
-  bounds_(nbClasses - 1),
+  bounds_(nbClasses > 0 ? nbClasses - 1 : 0),
   intMinMax_(new IntervalConstraint(-NumConstants::VERY_BIG(), NumConstants::VERY_BIG(), true, true)),
   median_(false),
   discretizationScheme_(discretization)
-{}
+{
+  if (nbClasses == 0)
+    throw Exception("AbstractDiscreteDistribution. The number of classes must be at least 1.");
+}
 
 AbstractDiscreteDistribution::AbstractDiscreteDistribution(const AbstractDiscreteDistribution& adde) :
   AbstractParameterAliasable(adde),
